@@ -75,6 +75,7 @@ var forms = []string{
 	"type-switch-returns",      // switch any(v).(type) { case int: return lit0 }; { return lit1 }
 	"goto-label-return",        // if c { goto done }; return lit0; done: return lit1
 	"defer-and-closure-noise",  // defer func() { _ = func() int { return 9 }() }(); return lit1
+	"named-compound-assign",    // named only: s, err = lits; n <<= uint8(3) style compound update of a local, bare return
 }
 
 func zeroExprs(sh int, v int) []string {
@@ -164,6 +165,12 @@ func (p Prog) body(i int) (src string, want [][]string) {
 		return "if cond {\n\t\tgoto done\n\t}\n\t" + ret(0) + "\ndone:\n\t" + ret(1), wantOf(0, 1)
 	case "defer-and-closure-noise":
 		return "defer func() { _ = func() int { return 9 }() }()\n\t" + ret(1), wantOf(1)
+	case "named-compound-assign":
+		if shapes[sh].named != nil {
+			// s is updated with += (operand of another shape than the result must not leak into the alternatives)
+			return "s, err = \"b\" + \"c\", nil\n\tvar k uint8 = 3\n\tcnt := 1\n\tcnt <<= k\n\t_ = cnt\n\ts += string(rune(k))\n\treturn", nil
+		}
+		return ret(1), wantOf(1)
 	case "interface-method":
 		if ts[len(ts)-1] == "error" {
 			exprs := zeroExprs(sh, 1)
@@ -189,6 +196,8 @@ func (p Prog) source(name string) (string, [][][]string) {
 	b.WriteString("func wrapErr(f func() (int, string, error)) error {\n\t_, _, err := f()\n\treturn err\n}\n\n")
 	b.WriteString("func wrapTwo(f func() error) error { return f() }\n\n")
 	wants := make([][][]string, len(p.Shapes))
+	// source order: f0 first, so a function calling a higher-numbered one is a caller ABOVE its callee
+	// (top-down layout) and one calling a lower-numbered one is bottom-up; both occur in the enumeration
 	for i := range p.Shapes {
 		body, want := p.body(i)
 		wants[i] = want
